@@ -80,7 +80,8 @@ class NameSpaces:
         if isinstance(e, ast.Name):
             if e.id in seen:
                 return True  # co-inductive: `base = name; name = f"{base}_{n}"`
-            ds = self.L.defs.get(e.id, [])
+            # a `None` initialiser is "no name yet": it is not a name of either kind and cannot collide with one
+            ds = [d for d in self.L.defs.get(e.id, []) if not (d[0] == "assign" and isinstance(d[1], ast.Constant) and d[1].value is None)]
             vals = [v for k, v, _ in ds if k == "assign" and v is not None]
             return bool(vals) and len(vals) == len([d for d in ds if d[0] != "aug"]) and all(self.san_expr(v, depth + 1, seen | {e.id}) for v in vals)
         return False
